@@ -480,4 +480,9 @@ theorem c15_lock_order_acyclic :
     FV.Locks.acyclic [1, 2, 3, 4, 5, 6, 7, 8] FV.Generated.Locks.mutexTags FV.Generated.Locks.facts = true := by
   decide +kernel
 
+/-- **Constructors return fresh values** (regenerated from lib/go on every check): no function named `New…` returns
+(the address of) a package-level variable — a monitor obtained from `NewDefaultFTransportMonitor()` and customised
+through its exported fields is this caller's own; the static half of `c15_monitors_independent`. -/
+theorem c15_constructors_return_fresh_values : FV.Generated.Locks.sharedCtors = [] := by decide
+
 end FV.C15
